@@ -12,6 +12,18 @@ import json
 import os
 import vlib
 
+MANIFEST = {
+    "level": "model_checking",
+    "technique": "TLA+ spec FlowMap: TLC exhaustive + TLC-generated behaviours replayed on hashmap + TLC trace validation of seeded runs",
+    "text": "FlowMap.tla is an ordinary additive map by construction; TLC checks its algebra exhaustively, every TLC behaviour "
+            "(depth 3 exhaustive, depth 60 simulated) is replayed on the real map with Len/Get/full iteration compared after "
+            "every step, and long implementation traces (hundreds to thousands of keys, iteration and merge while growing) are "
+            "accepted by TLC as behaviours of the spec.",
+    "note": "Trusts the harness' key concretisation/projection and TLC; key bytes and counters are sampled from the seed, sizes bounded "
+            "by the driver (quick 600 keys, thorough 3000).",
+    "ref": "6.5",
+}
+
 
 def main():
     run = vlib.Run("C18", "model_checking")
